@@ -1,6 +1,7 @@
 """C09 - executor runs each statement in order, once, and resumes after any failure.
 
-spec : Apply.tla (exhaustive: every shape <= F x S, <= K faults at any ExecContext / WriteRevision call, reruns)
+spec : Apply.tla (exhaustive: every shape <= F x S, <= K faults at any ExecContext / WriteRevision / ReadRevision call, reruns;
+       liveness Resumes under fairness in cfg/Apply.live.cfg)
 bind : C->S. The real Executor.ExecuteN is driven through every fault plan with scripted stores; every call is an
        event; ApplyMonitor.tla evaluates the property formulas after every event (verdict), ApplyTrace.tla checks
        that the execution is a behaviour of Apply.tla (conformance; rejection = DRIFT).
@@ -42,6 +43,8 @@ def run(tier):
             c = byid[cid]
             case = {"part": "api", "shape": c["shape"], "exec_faults": c["exec_faults"], "write_faults": c["write_faults"], "n": c["n"],
                     "first_violation": names[0], "panic": bool(c.get("panic"))}
+            if c.get("read_faults"):
+                case["read_faults"] = c["read_faults"]
             v.violation(case, {"violated": names, "panic": c.get("panic"), "events": applyapi.events_of(trace, c)})
         drift, visited, accepted, more = vf.conform_trace("ApplyTrace", "ApplyTrace.cfg", trace, applyapi.case_locator(cases))
         for dr in drift:
